@@ -38,13 +38,19 @@ def _ops(draw, kind, d, cfg, allow_long=True):
                 ops.append(["restart"])
             elif r_ == 1:
                 ops.append(["inspect", False])
+            elif r_ == 2 and draw(st.booleans()):
+                ops.append(["interrupt", draw(st.sampled_from([1, 2, 5])), draw(st.integers(1, 30))])
             else:
                 m_ = draw(st.sampled_from([0, 1, 1, 2, 3, 7]))
                 m2_ = m_ if longs else lc.maybe_long(draw, m_, cfg, one_in=24)
                 longs += m2_ != m_
                 ops.append(["advance", m2_])
             continue
-        k = draw(st.sampled_from(["step", "step", "advance", "exchange", "exchange", "restart", "inspect", "scribble"]))
+        k = draw(st.sampled_from(["step", "step", "advance", "exchange", "exchange", "restart", "inspect", "scribble", "interrupt"]))
+        if k == "interrupt":
+            # the user's posterior raises in the middle of an advance; the caller catches it and keeps using the sampler
+            ops.append(["interrupt", draw(st.sampled_from([1, 3, 12])), draw(st.integers(1, 40))])
+            continue
         if k == "scribble":
             ops.append(["scribble"])
             continue
@@ -147,6 +153,9 @@ def run_ops(h, ops, V, stats, inputs, snap, xrng, scribble_ok=False):
                 lc.op_step(h)
             elif name == "advance":
                 lc.op_advance(h, op[1])
+            elif name == "interrupt":
+                if lc.op_interrupted_advance(h, op[1], op[2]):
+                    stats["probe_operation_interrupted_by_the_posterior"] += 1
             elif name == "exchange":
                 g = np.random.Generator(np.random.PCG64([op[1], 17]))
                 pos = h.foreign_point(h.target.draw(g, h.T if h.cfg["target"]["kind"] != "banana" else 1.0))
@@ -170,7 +179,12 @@ def run_ops(h, ops, V, stats, inputs, snap, xrng, scribble_ok=False):
                 if V:
                     return
             elif name == "restart":
-                old_chain = lc.op_restart(h, "r%d" % stats["fault_crash_restart"])
+                try:
+                    old_chain = lc.op_restart(h, "r%d" % stats["fault_crash_restart"])
+                except LibRaised:
+                    # whether a sampler can be saved and loaded at this point is C09's statement, not C03's
+                    stats["restart_failed_history_ended"] += 1
+                    return
                 sync_generators(h.chain, old_chain)
                 stats["fault_crash_restart"] += 1
         except lc.StepExhausted:
